@@ -112,6 +112,12 @@ def gen_records(r, n, multi=True):
 
 
 SPECIAL = [
+    # a table that is written with column lineage but without reading any table, then dropped: it has columns, so it stays
+    "insert into s.a select x.k from (select 1 as k) x;\ndrop table s.a",
+    "create table s.a as with seed as (select 1 as k, 'x' as y) select k, y from seed;\ndrop table s.a",
+    "update s.a set x = y;\ndrop table s.a",
+    "create table s.a (k int);\ndrop table s.a",
+    "insert into s.a select k from s.b;\ndrop table s.a;\ninsert into s.c select k from s.a",
     # a table written by a statement that reads nothing (target-only) and read by a later one through another column
     "update s.a set x = y;\ninsert into s.b select k from s.a",
     "update s.a set x = y + z;\ncreate table s.b as select * from s.a",
